@@ -20,60 +20,62 @@ open GrpcModel.ServerDrain GrpcProofs.Lemmas.ServerDrain
 
 def SReach (s : State) : Prop := ∃ es, s = run init es
 
-theorem SReach.dinv {s : State} (h : SReach s) : DInv s := by
+theorem SReach.cinv {s : State} (h : SReach s) : CInv (core s) := by
   obtain ⟨es, rfl⟩ := h
-  exact dinv_run dinv_init es
+  exact cinv_csteps cinv_init (core_run init es)
 
-/-- **The final GOAWAY's id is the highest stream id the server accepted**: (1) the handler writes
-`t.maxStreamID` … -/
-theorem final_goaway_carries_maxStreamID (s : State) (code : Nat) (cc : Bool) (rest : List Item)
-    (hq : s.cbuf = .goAway false code cc :: rest) (hl : (s.lExited || s.lBlocked) = false) (hc : s.tstate ≠ .closing)
-    (hd : (s.connClosed || s.peerGone) = false) :
-    s.loopyStep.1.finalGoAway = some s.maxStreamID ∧ s.loopyStep.1.tstate ≠ .reachable := by
-  unfold State.loopyStep
-  simp only [hl, Bool.false_eq_true, if_false, hq, hc, hd]
-  split
-  · simp [State.write]
-  · rename_i hh
-    generalize hr : (cc || _) = r
-    have k := keeps_afterFinalFlush r
-      ({ (({ ({ s with cbuf := rest } : State) with tstate := TState.draining } : State).write (.G s.maxStreamID code)) with
-          finalGoAway := some s.maxStreamID, wbuf := [] })
-    simp only [] at k
-    exact ⟨k.2.2.2, by rw [k.2.1]; simp [State.write]⟩
+/-- **The final GOAWAY's id is the highest stream id the server accepted**: (1) the handler of the final
+GOAWAY of a graceful drain chooses `t.maxStreamID` (under `maxStreamMu`+`mu`, together with `state = draining`) … -/
+theorem final_goaway_carries_maxStreamID (s : State) (hf : s.finalGoAway = none) :
+    (s.finalChosen false).finalGoAway = some s.maxStreamID ∧ (s.finalChosen false).tstate = .draining := by
+  simp [State.finalChosen, hf]
 
-/-- … (2) and in every reachable state, once a final GOAWAY(n) is out, every stream that was handed to a
-handler has id ≤ n (and, before that, ≤ maxStreamID). -/
+/-- … (2) and in every reachable state, once the final GOAWAY(n) is chosen, the transport is not `reachable`,
+n ≤ maxStreamID and every stream that was handed to a handler has id ≤ n. -/
 theorem final_goaway_id_is_highest_accepted {s : State} (h : SReach s) {n : Nat} (hf : s.finalGoAway = some n) :
     s.tstate ≠ .reachable ∧ ∀ x ∈ s.streams, x.id ≤ n := by
-  have := h.dinv.fin n hf
-  refine ⟨this.1, fun x hx => this.2 x.id ?_⟩
+  have := h.cinv.fin n hf
+  refine ⟨this.1, fun x hx => this.2.2 x.id ?_⟩
+  show x.id ∈ ids s
   simp only [ids, List.mem_map]
   exact ⟨x, hx, rfl⟩
 
+/-- **The final GOAWAY never covers a stream the server silently dropped.**  `operateHeaders` records the id in
+`maxStreamID` first and decides much later (`t.state != reachable` → drop without any response); because
+it holds `maxStreamMu` in between and the GOAWAY handler needs that lock, a dropped stream's id is always
+ABOVE the final GOAWAY's last-stream-id (so the client treats it as unprocessed and retries it).
+(`errGoAway = false`: no protocol-error GOAWAY tore the connection down.) -/
+theorem no_silent_drop_below_final_goaway {s : State} (h : SReach s) (he : s.errGoAway = false) {n : Nat}
+    (hf : s.finalGoAway = some n) : ∀ d ∈ s.dropped, n < d :=
+  h.cinv.drop he n hf
+
+/-- the lock that makes it so: while the reader is inside `operateHeaders` (between `t.maxStreamID = streamID`
+and the admission decision) loopy's GOAWAY handlers wait -/
+theorem goaway_waits_for_operateHeaders (s : State) (hu : Bool) (code : Nat) (cc : Bool) (rest : List Item)
+    (hq : s.cbuf = .goAway hu code cc :: rest) (hp : s.hdrPending.isSome = true) : s.loopyStep = (s, []) := by
+  unfold State.loopyStep
+  split
+  · rfl
+  · simp [hq, Item.isGoAway, hp]
+
+/-- and a HEADERS frame being processed always carries an id above an already chosen final GOAWAY id -/
+theorem pending_headers_above_final {s : State} (h : SReach s) {p n : Nat} (hp : s.hdrPending = some p)
+    (hf : s.finalGoAway = some n) : n < p ∧ p = s.maxStreamID :=
+  ⟨(h.cinv.pend p hp).2 n hf, (h.cinv.pend p hp).1⟩
+
 /-- **No stream above it is accepted** (nor any stream at all): once the transport has left `reachable`
-(the final GOAWAY handler sets `draining` before writing the frame) no event sequence adds a stream
+(the final GOAWAY handler sets `draining` together with choosing the id) no event sequence adds a stream
 to the set handed to handlers. -/
 theorem none_accepted_after_final_goaway {s : State} (hn : s.tstate ≠ .reachable) (es : List Ev) :
-    ids (run s es) = ids s ∧ (run s es).tstate ≠ .reachable := by
-  induction es generalizing s with
-  | nil => exact ⟨rfl, hn⟩
-  | cons e es ih =>
-    obtain ⟨_, b, c, _⟩ := eff_step s e
-    have hn' := b hn
-    obtain ⟨i1, i2⟩ := ih hn'
-    simp only [run]
-    refine ⟨?_, i2⟩
-    rcases c with c | ⟨hr, _, _⟩
-    · rw [i1, c]
-    · exact absurd hr hn
+    ids (run s es) = ids s ∧ (run s es).tstate ≠ .reachable :=
+  frozen_csteps (a := core s) hn (core_run s es)
 
 /-- What does hold of "serves every stream up to that id to completion": the final-GOAWAY handler itself
 closes the connection only if `activeStreams` is empty (or the GOAWAY carries an error); otherwise it
 just switches loopy to draining. -/
 theorem accepted_served_to_completion_partial (s : State) (code : Nat) (rest : List Item)
     (hq : s.cbuf = .goAway false code false :: rest) (hl : (s.lExited || s.lBlocked) = false) (hc : s.tstate ≠ .closing)
-    (hd : (s.connClosed || s.peerGone) = false) (hh : s.held = false) (hact : s.activeCount ≠ 0) :
+    (hd : (s.connClosed || s.peerGone) = false) (hh : s.held = false) (hp : s.hdrPending = none) (hact : s.activeCount ≠ 0) :
     s.loopyStep.1.lExited = false ∧ s.loopyStep.1.lDraining = true ∧ s.loopyStep.1.connClosed = s.connClosed := by
   have hl' : s.lExited = false := by cases h : s.lExited <;> simp_all
   have hac : ∀ t : State, t.activeNil = s.activeNil → t.streams = s.streams → (t.activeCount == 0) = false := by
@@ -81,7 +83,8 @@ theorem accepted_served_to_completion_partial (s : State) (code : Nat) (rest : L
     have : t.activeCount = s.activeCount := by simp [State.activeCount, h1, h2]
     rw [this]; simpa using hact
   unfold State.loopyStep
-  simp only [hl, Bool.false_eq_true, if_false, hq, hc, hd, State.write, hh, Bool.false_or]
+  simp only [hl, Bool.false_eq_true, if_false, hq, hc, hd, State.write, hh, Bool.false_or, Item.isGoAway, hp, Option.isSome_none,
+    Bool.and_false, State.finalChosen]
   generalize hg : (State.activeCount _ == 0) = r
   have hr : r = false := by rw [← hg]; exact hac _ rfl rfl
   subst hr
